@@ -447,6 +447,37 @@ func modeEvents(seed uint64, n int, out *sx.Out) {
 			do(n+len(normTypes)*3+ti, r, g)
 		}
 	}
+	// every run: the syscalls whose normalisation points at a PATH record other than the first (mkdir, mkdirat, mount: 1;
+	// rename, renameat, renameat2: 2) with every short pattern of name types - in particular all records from the hinted one
+	// on being PARENT / UNKNOWN, where the hinted record itself must be mirrored, not the first one
+	k := 0
+	for _, sc := range []int{83, 258, 165, 82, 264, 316, 2} {
+		for _, pat := range [][]string{{"NORMAL", "PARENT"}, {"NORMAL", "UNKNOWN"}, {"NORMAL", "PARENT", "PARENT"}, {"NORMAL", "CREATE", "PARENT"}, {"NORMAL", "PARENT", "UNKNOWN", "PARENT"},
+			{"PARENT", "NORMAL"}, {"PARENT", "PARENT", "CREATE"}, {"NORMAL", "NORMAL", "PARENT", "DELETE"}, {"PARENT"}, {"UNKNOWN", "UNKNOWN", "UNKNOWN"}} {
+			r := sx.Fork(seed^0x9a7, uint64(k))
+			var g group
+			seq, sec := uint32(20000+k), int64(1500200000+k)
+			raws := []struct {
+				t   auparse.AuditMessageType
+				raw string
+			}{{auparse.AUDIT_SYSCALL, fmt.Sprintf("audit(%d.123:%d): arch=c000003e syscall=%d success=no exit=-2 a0=1 a1=2 items=%d ppid=1 pid=2 auid=1000 uid=0 gid=0 euid=0 suid=0 fsuid=0 egid=0 sgid=0 fsgid=0 tty=pts0 ses=3 comm=\"cmd\" exe=\"/usr/bin/cmd\" subj=u:r:t:s0 key=(null)", sec, seq, sc, len(pat))},
+				{auparse.AUDIT_CWD, fmt.Sprintf("audit(%d.123:%d): cwd=\"/srv\"", sec, seq)}}
+			for j, nt := range pat {
+				raws = append(raws, struct {
+					t   auparse.AuditMessageType
+					raw string
+				}{auparse.AUDIT_PATH, fmt.Sprintf("audit(%d.123:%d): item=%d name=\"/srv/p%d\" inode=%d dev=fd:0%d mode=0%o ouid=%d ogid=%d rdev=00:00 obj=u:object_r:t%d:s0 nametype=%s", sec, seq, j, j, 11*(j+1), j+1, []int{0o100644, 0o41755, 0o100600, 0o40700}[j%4], 100+j, 200+j, j, nt)})
+			}
+			for _, x := range raws {
+				if m, err := auparse.Parse(x.t, x.raw); err == nil {
+					g.msgs = append(g.msgs, m)
+					g.desc = append(g.desc, x.t.String())
+				}
+			}
+			do(n+len(normTypes)*4+k, r, g)
+			k++
+		}
+	}
 }
 
 // modeCache drives the id caches (the constructors' own, with scripted resolvers) and records every lookup with what
